@@ -141,7 +141,7 @@ def known_classes(evs):
 class Prop:
     pid = 'C10'
     props_file = 'Props/C10.v'
-    required_theorems = ['helper_mode_entry_arms_timer', 'drop_never_leaves_helper_mode', 'failed_reconnect_keeps_timer', 'no_llgr_dropped_at_llgr_start', 'no_llgr_dropped_at_llgr_only_drop', 'fresh_routes_survive_purge_outside_known', 'fresh_routes_survive_purge_refuted', 'purged_by_expiry_or_eor', 'non_negotiated_families_dropped_at_once', 'stale_implies_timer_or_eor_refuted', 'stale_implies_timer_or_eor_partial', 'non_gr_reasons_retain_nothing_refuted', 'non_gr_reasons_retain_nothing_outside_known']
+    required_theorems = ['helper_mode_entry_arms_timer', 'drop_never_leaves_helper_mode', 'stale_implies_timer_or_eor_outside_known', 'stale_implies_timer_or_eor_refuted', 'failed_reconnect_keeps_timer', 'no_llgr_dropped_at_llgr_start', 'no_llgr_dropped_at_llgr_only_drop', 'fresh_routes_survive_purge', 'live_session_routes_survive_purge', 'purged_by_expiry_or_eor', 'non_negotiated_families_dropped_at_once', 'non_gr_reasons_retain_nothing_outside_known', 'non_gr_reasons_retain_nothing_refuted']
     correspondence_name = ('Model/Gr.v gr_step vs daemon/src/gr.rs GrState::process (harness/daemon/gr_hx.rs); '
                            'Model/Gr.v h_step vs apply_disconnect / process_effects / timer handlers / unregister_peer on a real '
                            'PeerContext + TableManager (harness/daemon/event_gr_hx.rs)')
